@@ -113,7 +113,35 @@ func build(c driver.Case, mainScript src.Script) *built {
 	} else {
 		bb.p = e.Pipeline(bb.b)
 	}
+	scs := make([]src.Script, e.NSrc)
+	for i := range scs {
+		scs[i] = mainScript
+	}
+	setRefWant(e, chain, scs)
 	return bb
+}
+
+// refWant: number of callbacks the catalogue's reference model predicts for the case being run (-1 unknown);
+// lets reference runs of asynchronous entries return as soon as everything expected has arrived.
+var refWant = -1
+
+func setRefWant(e *catalog.Entry, chain []*catalog.Entry, scripts []src.Script) {
+	refWant = -1
+	if len(chain) > 0 || e.Model == nil {
+		return
+	}
+	legal := make([]src.Script, len(scripts))
+	for i, s := range scripts {
+		legal[i] = s.Legal()
+	}
+	exp := e.Model(legal)
+	refWant = len(exp.Vals)
+	if exp.Term.K != rec.Next {
+		refWant++
+	}
+	if refWant == 0 {
+		refWant = -1
+	}
 }
 
 func asyncish(f catalog.Flags) bool {
@@ -122,6 +150,11 @@ func asyncish(f catalog.Flags) bool {
 
 // subscribeOnce subscribes r and waits for the outcome of asynchronous pipelines.
 func subscribeOnce(p catalog.Pipeline, r *rec.Rec, flags catalog.Flags) (ro.Subscription, string) {
+	return subscribeWant(p, r, flags, -2)
+}
+
+// subscribeWant: want = number of callbacks to wait for on asynchronous pipelines (-2: unknown, reference run).
+func subscribeWant(p catalog.Pipeline, r *rec.Rec, flags catalog.Flags, want int) (ro.Subscription, string) {
 	var sub ro.Subscription
 	st, dump, pan := quiesce.Call(func() { sub = p.Subscribe(context.Background(), r, false) }, 10*time.Second)
 	if st == quiesce.Hung {
@@ -134,7 +167,12 @@ func subscribeOnce(p catalog.Pipeline, r *rec.Rec, flags catalog.Flags) (ro.Subs
 		return sub, fmt.Sprintf("panic:%v", pan)
 	}
 	if asyncish(flags) {
-		run.WaitOutcome(r, false, 3*time.Second)
+		if want == -2 {
+			// reference run: wait for the terminal, or — none coming — for a quiescent process after a long floor
+			run.WaitEvents(r, refWant, 3*time.Second, 10*time.Second)
+		} else {
+			run.WaitEvents(r, want, 3*time.Second, 10*time.Second)
+		}
 	}
 	return sub, ""
 }
@@ -181,7 +219,7 @@ func runResub(c driver.Case) driver.Result {
 		for i, s := range pv.srcs {
 			before[i] = s.Subscribed.Load()
 		}
-		s, problem := subscribeOnce(pv.p, r, pv.flags)
+		s, problem := subscribeWant(pv.p, r, pv.flags, max(rr.Len(), 1))
 		if problem != "" {
 			res.Dirty = true
 			return fail("resubscription-"+strings.SplitN(problem, ":", 2)[0], fmt.Sprintf("subscription #%d: %s", n+1, problem))
@@ -249,7 +287,7 @@ func runConcSub(c driver.Case) driver.Result {
 	}
 	if asyncish(pv.flags) {
 		for _, r := range recs {
-			run.WaitOutcome(r, false, 3*time.Second)
+			run.WaitEvents(r, max(rr.Len(), 1), 3*time.Second, 10*time.Second)
 		}
 	}
 	var traces []string
@@ -341,7 +379,8 @@ func runOpValue(c driver.Case) driver.Result {
 	}
 	for i, a := range apps {
 		r := rec.New(fmt.Sprintf("app%d", i))
-		s, problem := subscribeOnce(catalog.P(a.obs), r, e.Flags)
+		wantN := len(strings.Fields(want[a.letter]))
+		s, problem := subscribeWant(catalog.P(a.obs), r, e.Flags, max(wantN, 1))
 		if problem != "" {
 			res.Verdict, res.Key, res.Dirty = driver.Violated, "C12/"+e.Family+"/operator-value-reuse-"+strings.SplitN(problem, ":", 2)[0], true
 			res.Msg = fmt.Sprintf("%s: pipeline #%d (source %c) of one operator value applied in order %s: %s", e.Name, i, a.letter, order, problem)
